@@ -9,9 +9,16 @@ use std::collections::{BTreeMap, BTreeSet};
 use syn::spanned::Spanned;
 use syn::visit::{self, Visit};
 
+// Methods of std collections / Option / Result / iterators / strings. A closure passed to one of them is still visited,
+// so a handler call or a crate function call inside it is reported as such (`other`), whatever adaptor carries it.
 const STD_METHODS: &[&str] = &[
     "lock", "unwrap", "get", "insert", "iter", "is_some", "is_none", "clone", "len", "to_string", "push",
     "sort_by", "cmp", "is_err", "is_ok", "into", "as_str", "contains_key",
+    "cloned", "copied", "map", "map_or", "map_or_else", "and_then", "or_else", "ok_or", "ok_or_else", "unwrap_or", "unwrap_or_else",
+    "unwrap_or_default", "expect", "ok", "err", "keys", "values", "collect", "sort", "sort_by_key", "sort_unstable", "sort_unstable_by",
+    "filter", "filter_map", "any", "all", "find", "position", "contains", "is_empty", "to_owned", "as_ref", "as_deref", "into_iter",
+    "enumerate", "zip", "rev", "last", "first", "chars", "eq", "ne", "to_vec", "count", "min", "max", "fold", "for_each", "take", "skip",
+    "starts_with", "ends_with", "as_bytes", "borrow", "deref", "flatten", "chain", "partial_cmp",
 ];
 const STD_PATHS: &[&str] = &["Vec::new", "String::from", "HashMap::new", "Mutex::new", "String::new"];
 const MUTATORS: &[&str] = &["insert", "remove", "clear", "entry", "retain", "drain", "extend", "get_mut", "iter_mut", "values_mut"];
@@ -95,7 +102,7 @@ impl<'ast> Visit<'ast> for CallCollector {
     fn visit_macro(&mut self, m: &'ast syn::Macro) {
         let n = norm(&m.path);
         self.calls.push(format!("{}!", n));
-        if n != "vec" && n != "format" && n != "write" && n != "matches" {
+        if !["vec", "format", "write", "writeln", "matches", "assert", "assert_eq", "debug_assert", "debug_assert_eq", "unreachable"].contains(&n.as_str()) {
             self.other.push(format!("{}!", n));
         }
     }
